@@ -325,12 +325,12 @@ Definition load_initial (whitelist blocklist : list str) (files : list str) : bl
   let b1 := fold_left (fun b e => snd (set_locked e b)) blocklist b0 in
   fold_left (fun b f => parse_bytes f b) files b1.
 
-(* refreshRemote, one second after New (and after the downloads): readBlocklists parses
-   every file of the directory again, `local` included, into the LIVE memory through
-   set() — no snapshot, no persist.  In [sys] the directory is `local`. *)
-Definition sys_refresh (s : sys) : sys :=
-  let files := match s_local s with Some f => [f] | None => [] end in
-  mk_sys (fold_left (fun b f => parse_bytes f b) files (s_mem s))
+(* refreshRemote, one second after New: after the downloads, readLists(true) parses the
+   freshly downloaded "*.tmp" files — and nothing else: not `local`, not the other
+   lists loadInitial already read (commit dba5ede) — into the LIVE memory through
+   set(); no snapshot, no persist.  [downloads] are the contents of those files. *)
+Definition sys_refresh (downloads : list str) (s : sys) : sys :=
+  mk_sys (fold_left (fun b f => parse_bytes f b) downloads (s_mem s))
          (s_version s) (s_last s) (s_local s) (s_pending s).
 
 (* what a start reads: loadInitial first deletes every local.tmp.* (leftovers of
